@@ -250,6 +250,21 @@ impl Prop for C03 {
         for y in ylo..yhi {
           run_case(env, out, "year", &Case::ints(&[y as i64]), &ev);
         }
+        // cold memo, then the months of sampled years constructed in descending order and around the leap month
+        let step = env.tier.pick(25, 3);
+        for y in (ylo as i64..yhi as i64).filter(|y| y % step == (env.seed % step as u64) as i64 && *y >= 1 && *y < 9999) {
+          tyme4rs::tyme::lunar::verif_reset_lunar_month_cache();
+          let lp = l.leap[y as usize] as i64;
+          let mut seq: Vec<i64> = (1..=12).rev().collect();
+          if lp > 0 {
+            seq.extend_from_slice(&[-lp, (lp - 1).max(1), (lp + 1).min(12), lp]);
+          }
+          for m in seq {
+            out.class("cold_descending_month_cases");
+            run_case(env, out, "adjacent", &Case::ints(&[y, m]), &ev);
+          }
+        }
+        tyme4rs::tyme::lunar::verif_reset_lunar_month_cache();
         out.set_exhaustive("adjacent", true);
         out.set_exhaustive("year", true);
       }
